@@ -2,7 +2,7 @@
    pass total (C10), and what the call stores (C06), for supplied frames and stored frames of uniform shape. *)
 From Coq Require Import Lia ZifyNat ZifyN ZifyBool.
 From EZ Require Import Base Types Api Proofs_Lookup Proofs_Monad Proofs_Param Proofs_Store Proofs_Guards Proofs_Refuse
-  Proofs_Tree Proofs_Hoare Spec_Typed Proofs_Updaters.
+  Proofs_Tree Proofs_Hoare Spec_Typed Proofs_Updaters Proofs_Codec Proofs_Record.
 Local Open Scope N_scope.
 
 Definition known_chan (labels : list bstr) (c : channel) : bool := existsb (fun l => bstr_eqb (ch_name c) l) labels.
@@ -231,3 +231,170 @@ Proof.
     rewrite H in T. exact T.
 Qed.
 End WithOps.
+
+(* ---------- what the call stores (C06) ---------- *)
+(* the first nsf sub-frames gain the channels idx .. idx+k-1 of the corresponding supplied sub-frames; the rest is untouched *)
+Fixpoint appk (nsf : nat) (idx k : nat) (osubs nsubs : list subframe) : list subframe :=
+  match nsf, osubs, nsubs with
+  | S m, o :: ot, n :: nt => (o ++ firstn k (skipn idx n)) :: appk m idx k ot nt
+  | _, _, _ => osubs
+  end.
+
+Lemma firstn_succ_snoc : forall A (l : list A) k x, nth_error l k = Some x -> firstn (S k) l = firstn k l ++ [x].
+Proof.
+  intros A l. induction l as [|a l IH]; intros [|k] x H; cbn in *; try discriminate.
+  - injection H as <-. reflexivity.
+  - f_equal. apply IH. exact H.
+Qed.
+
+Lemma add_chan_subs_spec : forall nsf k idx nsubs osubs,
+  (N.to_nat k + nsf <= length osubs)%nat -> (N.to_nat k + nsf <= length nsubs)%nat ->
+  (forall j sf, (j < N.to_nat k + nsf)%nat -> nth_error nsubs j = Some sf -> idx < nlen sf) ->
+  fst (add_chan_subs nsf k idx nsubs osubs) =
+    firstn (N.to_nat k) osubs ++ appk nsf (N.to_nat idx) 1 (skipn (N.to_nat k) osubs) (skipn (N.to_nat k) nsubs).
+Proof.
+  intros nsf. induction nsf as [|m IH]; intros k idx nsubs osubs Ho Hn Hw; cbn [add_chan_subs].
+  - cbn [fst appk]. symmetry. apply firstn_skipn.
+  - assert (Lo : k < nlen osubs) by (unfold nlen; lia). assert (Ln : k < nlen nsubs) by (unfold nlen; lia).
+    destruct (at_in subframe osubs k Lo) as [osf Eo]. rewrite Eo.
+    destruct (at_in subframe nsubs k Ln) as [sf Es]. rewrite Es.
+    pose proof (at_skipn _ _ _ _ Eo) as So. pose proof (at_skipn _ _ _ _ Es) as Sn.
+    apply at_ok in Es. destruct Es as [_ Es]. apply at_ok in Eo. destruct Eo as [_ Eo].
+    assert (Li : idx < nlen sf) by (apply (Hw (N.to_nat k) sf); [lia|exact Es]).
+    destruct (at_in channel sf idx Li) as [c Ec]. rewrite Ec.
+    rewrite IH; [|rewrite replace_nth_length; lia|lia|intros j sf' Hj Hs; apply (Hw j sf'); [lia|exact Hs]].
+    replace (N.to_nat (k + 1)) with (S (N.to_nat k)) by lia.
+    match goal with |- context [appk (S m) _ 1 ?a ?b] =>
+      replace a with (osf :: skipn (N.to_nat k + 1) osubs) by (symmetry; exact So);
+      replace b with (sf :: skipn (N.to_nat k + 1) nsubs) by (symmetry; exact Sn) end.
+    cbn [appk].
+    rewrite (at_skipn _ _ _ _ Ec). change (firstn 1 (c :: skipn (N.to_nat idx + 1) sf)) with [c].
+    assert (Lk : (N.to_nat k < length osubs)%nat) by lia.
+    rewrite (replace_nth_firstn_skipn _ osubs (N.to_nat k) (add_chan_to_sub osf c) Lk).
+    replace (N.to_nat k + 1)%nat with (S (N.to_nat k)) by lia.
+    assert (L1 : length (firstn (N.to_nat k) osubs ++ [add_chan_to_sub osf c]) = S (N.to_nat k)).
+    { rewrite app_length, firstn_length. cbn [length]. lia. }
+    rewrite app_assoc.
+    rewrite (firstn_app_len _ _ _ _ L1), (skipn_app_len _ _ _ _ L1).
+    rewrite <- app_assoc. reflexivity.
+Qed.
+
+Definition add_chs_frame (nsf idx k : nat) (o n : frame) : frame :=
+  mkFrame (fr_pts o) (appk nsf idx k (fr_subs o) (fr_subs n)).
+
+Lemma appk_0 : forall nsf idx os ns, appk nsf idx 0 os ns = os.
+Proof.
+  intros nsf. induction nsf as [|m IH]; intros idx os ns; cbn [appk]; [reflexivity|].
+  destruct os as [|o ot]; [reflexivity|]. destruct ns as [|n nt]; [reflexivity|].
+  cbn [firstn]. rewrite app_nil_r, IH. reflexivity.
+Qed.
+Lemma appk_length : forall nsf idx k os ns, length (appk nsf idx k os ns) = length os.
+Proof.
+  intros nsf. induction nsf as [|m IH]; intros idx k os ns; cbn [appk]; [reflexivity|].
+  destruct os as [|o ot]; [reflexivity|]. destruct ns as [|n nt]; [reflexivity|]. cbn [length]. rewrite IH. reflexivity.
+Qed.
+Lemma skipn_cons_nth : forall A (l : list A) i, (i < length l)%nat -> exists x, skipn i l = x :: skipn (i + 1) l.
+Proof.
+  intros A l. induction l as [|a l IH]; intros [|i] H; cbn in *; try lia; [eexists; reflexivity|]. apply IH. lia.
+Qed.
+Lemma appk_compose : forall nsf idx k os ns, (nsf <= length ns)%nat ->
+  (forall j sf, (j < nsf)%nat -> nth_error ns j = Some sf -> (idx < length sf)%nat) ->
+  appk nsf (idx + 1) k (appk nsf idx 1 os ns) ns = appk nsf idx (S k) os ns.
+Proof.
+  intros nsf. induction nsf as [|m IH]; intros idx k os ns Ln Hw; cbn [appk]; [reflexivity|].
+  destruct os as [|o ot]; [reflexivity|]. destruct ns as [|n nt]; [cbn in Ln; lia|]. cbn [appk]. f_equal.
+  - assert (Li : (idx < length n)%nat) by (apply (Hw 0%nat n); [lia|reflexivity]).
+    destruct (skipn_cons_nth _ n idx Li) as [x Ex]. rewrite Ex. cbn [firstn]. rewrite <- app_assoc. reflexivity.
+  - apply IH; [cbn in Ln; lia|]. intros j sf Hj Hs. apply (Hw (S j) sf); [lia|exact Hs].
+Qed.
+
+Lemma zipw_id : forall nsf idx olds news, (length olds <= length news)%nat -> zipw (add_chs_frame nsf idx 0) olds news = olds.
+Proof.
+  intros nsf idx olds. induction olds as [|o ot IH]; intros news L; [reflexivity|].
+  destruct news as [|n nt]; [cbn in L; lia|]. cbn [zipw]. f_equal; [|apply IH; cbn in L; lia].
+  unfold add_chs_frame. rewrite appk_0. destruct o; reflexivity.
+Qed.
+
+Lemma add_chan_col_spec : forall nsf idx news olds, (length olds <= length news)%nat ->
+  (forall o, In o olds -> (nsf <= length (fr_subs o))%nat) ->
+  (forall n, In n news -> (nsf <= length (fr_subs n))%nat /\ forall j sf, (j < nsf)%nat -> nth_error (fr_subs n) j = Some sf -> idx < nlen sf) ->
+  fst (add_chan_col_partial nsf idx news olds) = zipw (add_chs_frame nsf (N.to_nat idx) 1) olds news.
+Proof.
+  intros nsf idx news olds. revert news. induction olds as [|o ot IH]; intros news L Ho Hn.
+  - destruct news; reflexivity.
+  - destruct news as [|n nt]; [cbn in L; lia|]. cbn [add_chan_col_partial zipw].
+    destruct (Hn n (or_introl eq_refl)) as [Ln Hw].
+    assert (Lo : (nsf <= length (fr_subs o))%nat) by (apply Ho; left; reflexivity).
+    pose proof (add_chan_subs_spec nsf 0 idx (fr_subs n) (fr_subs o) Lo Ln Hw) as Sp. cbn [N.to_nat firstn skipn app] in Sp.
+    destruct (add_chan_subs_total nsf 0 idx (fr_subs n) (fr_subs o) Lo Ln Hw) as [A _].
+    destruct (add_chan_subs nsf 0 idx (fr_subs n) (fr_subs o)) as [subs e]. cbn [fst snd] in *. subst e subs.
+    pose proof (IH nt) as IH'.
+    destruct (add_chan_col_total nsf idx nt ot) as [A2 _]; [cbn in L; lia|intros o' Ho'; apply Ho; right; exact Ho'|intros n' Hn'; apply Hn; right; exact Hn'|].
+    rewrite <- IH'; [|cbn in L; lia|intros o' Ho'; apply Ho; right; exact Ho'|intros n' Hn'; apply Hn; right; exact Hn'].
+    destruct (add_chan_col_partial nsf idx nt ot) as [rest e]. cbn [fst snd] in *. subst e. reflexivity.
+Qed.
+
+Lemma zipw_chs_compose : forall nsf idx k olds news, (length olds <= length news)%nat ->
+  (forall n, In n news -> (nsf <= length (fr_subs n))%nat /\ forall j sf, (j < nsf)%nat -> nth_error (fr_subs n) j = Some sf -> (idx < length sf)%nat) ->
+  zipw (add_chs_frame nsf (idx + 1) k) (zipw (add_chs_frame nsf idx 1) olds news) news = zipw (add_chs_frame nsf idx (S k)) olds news.
+Proof.
+  intros nsf idx k olds. induction olds as [|o ot IH]; intros news L Hn; [reflexivity|].
+  destruct news as [|n nt]; [cbn in L; lia|]. cbn [zipw]. f_equal.
+  - unfold add_chs_frame. cbn [fr_pts fr_subs]. destruct (Hn n (or_introl eq_refl)) as [Ln Hw]. rewrite appk_compose by assumption. reflexivity.
+  - apply IH; [cbn in L; lia|intros n' Hn'; apply Hn; right; exact Hn'].
+Qed.
+
+(* THE STORE after k new channel columns: every frame keeps its points, each of its first nsf sub-frames gains exactly the
+   channels idx .. idx+k-1 of the corresponding supplied sub-frame, in order; nothing else changes *)
+Theorem chan_cols_spec : forall k idx news s,
+  (length (frames s) <= length news)%nat ->
+  uniform_chancol (N.to_nat (h_byframe (hdr s))) (idx + N.of_nat k) (frames s) news ->
+  exists s', chan_cols k idx news s = ROk tt s' /\ groups s' = groups s /\ hdr s' = hdr s /\ pro s' = pro s /\
+             frames s' = zipw (add_chs_frame (N.to_nat (h_byframe (hdr s))) (N.to_nat idx) k) (frames s) news.
+Proof.
+  induction k as [|k IH]; intros idx news s L [Uo Un]; cbn [chan_cols].
+  - exists s. cbv [ret]. rewrite zipw_id by exact L. auto.
+  - unfold bind at 1. cbv [getS].
+    set (nsf := N.to_nat (h_byframe (hdr s))) in *.
+    assert (Un1 : forall n, In n news -> (nsf <= length (fr_subs n))%nat /\ forall j sf, (j < nsf)%nat -> nth_error (fr_subs n) j = Some sf -> idx < nlen sf).
+    { intros n Hn. destruct (Un n Hn) as [X Y]. split; [exact X|]. intros j sf Hj Hs. specialize (Y j sf Hj Hs). lia. }
+    destruct (add_chan_col_total nsf idx news (frames s) L Uo Un1) as [A [B C]].
+    pose proof (add_chan_col_spec nsf idx news (frames s) L Uo Un1) as Sp.
+    destruct (add_chan_col_partial nsf idx news (frames s)) as [fs e]. cbn [fst snd] in A, B, C, Sp. subst e.
+    unfold bind at 1. cbv [putS]. unfold bind at 1. cbv [ret].
+    destruct (IH (idx + 1) news (set_frames s fs)) as [s' [E [G [Hh [P Fr]]]]].
+    + cbn [frames set_frames]. rewrite B. exact L.
+    + cbn [frames set_frames hdr]. fold nsf. split; [exact C|].
+      intros n Hn. destruct (Un n Hn) as [X Y]. split; [exact X|]. intros j sf Hj Hs. specialize (Y j sf Hj Hs). lia.
+    + exists s'. split; [exact E|]. cbn [groups hdr pro frames set_frames] in *. fold nsf in Fr.
+      split; [exact G|]. split; [exact Hh|]. split; [exact P|].
+      rewrite Fr, Sp. replace (N.to_nat (idx + 1)) with (N.to_nat idx + 1)%nat by lia.
+      apply zipw_chs_compose; [exact L|].
+      intros n Hn. destruct (Un n Hn) as [X Y]. split; [exact X|]. intros j sf Hj Hs. specialize (Y j sf Hj Hs). unfold nlen in Y. lia.
+Qed.
+
+Section WithOps2.
+Variable f_key : f32 -> outcome Z.
+Variable f_tosize : f32 -> outcome N.
+Variable f_div : f32 -> f32 -> f32.
+
+(* C06 for analog(frames): when accepted, every frame gains exactly the supplied channel columns *)
+Theorem api_analog_col_store : forall news s s' labels,
+  r_strs (groups s) nm_ANALOG nm_LABELS = Ok labels ->
+  uniform_chancol (N.to_nat (h_byframe (hdr s))) (width0 news) (frames s) news ->
+  api_analog_col f_key f_tosize f_div news s = ROk tt s' ->
+  frames s' = zipw (add_chs_frame (N.to_nat (h_byframe (hdr s))) 0 (N.to_nat (width0 news))) (frames s) news.
+Proof.
+  intros news s s' labels Hl U H. rewrite (api_analog_col_doc f_key f_tosize f_div news s labels Hl U) in H.
+  destruct (doc_chancol (nlen (frames s)) (h_byframe (hdr s)) labels news) as [x|] eqn:D; [discriminate|].
+  unfold doc_chancol in D. destruct ((nlen news =? 0) || negb (nlen news =? nlen (frames s))) eqn:C; [discriminate|].
+  apply Bool.orb_false_iff in C. destruct C as [_ C1]. apply Bool.negb_false_iff in C1. apply N.eqb_eq in C1.
+  assert (L : (length (frames s) <= length news)%nat) by (unfold nlen in C1; lia).
+  unfold chancols_and_update in H.
+  destruct (chan_cols_spec (N.to_nat (width0 news)) 0 news s L) as [s1 [E [G [Hh [P Fr]]]]].
+  { rewrite N.add_0_l, N2Nat.id. exact U. }
+  unfold bind in H. rewrite E in H.
+  pose proof (keeps_update_parameters f_key f_tosize f_div [] [] s1) as K. rewrite H in K. destruct K as [K _].
+  rewrite K, Fr. reflexivity.
+Qed.
+End WithOps2.
